@@ -272,8 +272,9 @@ def disarm(ctx):
 
 @op('arm_io_fault')
 def arm_io_fault(ctx, kind, index, err=28):
-    from sim import seams
-    seams.SHIM.arm(kind, seams.SHIM.count() + index, err)
+    """F2/F3/F4: the next file operation sees fault `kind` at its
+    index-th tracked libc call (armed by that operation itself)."""
+    ctx.pending_io_fault = (kind, index, err)
     return None
 
 
